@@ -29,7 +29,7 @@ Proof. exact share_base_spec. Qed.
 Print Assumptions C06_share_base_meaning.
 
 (* the region locations are pairwise disjoint and in increasing order (so add_region never
-   refuses one), and the first/last fix-up never fires: the regions are the sections *)
+   refuses one), and the merge of sections overlapping the first one never fires: the regions are the sections *)
 Theorem C06_regions_disjoint_sorted : forall N areas, Forall (wf N) areas ->
   hulls_ordered (sweep N 0 (sort_by area_lt areas)) /\ regions N areas = sections N areas.
 Proof.
@@ -68,8 +68,7 @@ Qed.
 (* add_region on a record whose regions do not span the origin (every linear record): the list being
    in location order and pairwise disjoint, a new region is refused (ValueError) exactly when it
    shares a base with a region of the record; otherwise it is inserted, and the list stays in location
-   order and pairwise disjoint.  (With an origin-spanning NEW region the scan stops too early: finding
-   add_region_scan_stops_early, C06_add_region_ring_refuted below.) *)
+   order and pairwise disjoint.  (Origin-spanning regions: C06_add_region_rejects_overlap_ring below.) *)
 Theorem C06_add_region_rejects_overlap : forall N regs r,
   Forall (simple_reg N) regs -> simple_reg N r -> sorted_disjoint regs ->
   ((exists ex, In ex regs /\ shares_base (rloc r) (rloc ex)) -> add_region N regs r = Err E_Value) /\
@@ -91,12 +90,36 @@ Proof.
   eexists; split; [reflexivity|cbn; lia].
 Qed.
 
-(* the same claim is false on a circular record: an origin-spanning new region is only compared with
-   the region at position 0 *)
-Theorem C06_add_region_ring_refuted : exists N regs r,
-  (exists ex, In ex regs /\ shares_base (rloc r) (rloc ex)) /\ exists regs', add_region N regs r = Ok regs'.
-Proof. exact add_region_ring_counterexample. Qed.
-Print Assumptions C06_add_region_ring_refuted.
+(* add_region on ANY record, origin-spanning new and existing regions included (repaired finding
+   add_region_scan_stops_early: every existing region is tested before the insertion index is looked for): the new
+   region is refused (ValueError) exactly when it shares a base with a region of the record; otherwise it is
+   inserted at some index, and a pairwise disjoint list stays pairwise disjoint.  (Location order of the list is only
+   claimed without origin-spanning regions, C06_add_region_rejects_overlap.) *)
+Theorem C06_add_region_rejects_overlap_ring : forall N regs r,
+  Forall wf_reg regs -> wf_reg r -> 0 <= lstart (rloc r) -> lend (rloc r) <= N ->
+  ((exists ex, In ex regs /\ shares_base (rloc r) (rloc ex)) -> add_region N regs r = Err E_Value) /\
+  (~ (exists ex, In ex regs /\ shares_base (rloc r) (rloc ex)) ->
+   exists i, (i <= length regs)%nat /\ add_region N regs r = Ok (insert_at i r regs) /\
+             (pw_disjoint regs -> pw_disjoint (insert_at i r regs))).
+Proof. exact add_region_ring. Qed.
+Print Assumptions C06_add_region_rejects_overlap_ring.
+
+(* the witness of the repaired finding: regions 50..150, 400..500, 800..950 on a ring of 1000, new region
+   join{[900:1000], [0:20]} shares bases 900..949 with the last one and is refused *)
+Example C06_add_region_ring_example :
+  let mk l := mkCR l [] [mkCA 0 0 l] in
+  let regs := [mk [mkPart 50 150 1]; mk [mkPart 400 500 1]; mk [mkPart 800 950 1]] in
+  Forall wf_reg regs /\ wf_reg (mk [mkPart 900 1000 1; mkPart 0 20 1]) /\ pw_disjoint regs /\
+  add_region 1000 regs (mk [mkPart 900 1000 1; mkPart 0 20 1]) = Err E_Value /\
+  add_region 1000 regs (mk [mkPart 950 1000 1; mkPart 0 20 1])
+  = Ok (mk [mkPart 950 1000 1; mkPart 0 20 1] :: regs).
+Proof.
+  cbn zeta. unfold wf_reg, L.wf_part. cbn [rloc].
+  split; [repeat constructor; cbn; lia|]. split; [repeat constructor; cbn; lia|]. split.
+  - cbn [pw_disjoint rloc]. repeat split; repeat constructor;
+      intros (x & (p & [<-|[]] & Hp) & (q & [<-|[]] & Hq)); cbn [ps pe] in *; lia.
+  - split; vm_compute; reflexivity.
+Qed.
 
 (* Parent and region links: after EVERY history of add_protocluster, CandidateCluster(...) +
    add_candidate_cluster, add_subregion, create_regions, clear_regions, clear_candidate_clusters,
@@ -121,7 +144,7 @@ Proof. vm_compute. repeat split; reflexivity. Qed.
 
 (* Circular (and linear) records in the Loc.v model, guard: no area spans the origin.  For every
    such record and every supply of candidate clusters and sub-regions: the sweep of create_regions
-   with overlaps_with / connect_locations(wrap_point) and the first/last merge succeeds and finds
+   with overlaps_with / connect_locations(wrap_point) and the merge of sections overlapping the first one succeeds and finds
    exactly the sections of the interval model, i.e. (C06_components_linear,
    C06_regions_disjoint_sorted) the connected components of the share-a-base graph with their tight
    hulls; Region.__init__ accepts every section (location = that hull, every child contained) and
@@ -150,12 +173,42 @@ Example C06_components_ring_example :
   end = [(100, 600, [mkItv 100 500; mkItv 150 200; mkItv 400 600]); (600, 700, [mkItv 600 700])].
 Proof. split; [repeat constructor; eexists; (split; [reflexivity|cbn; lia])|vm_compute; reflexivity]. Qed.
 
-(* the full statement fails on a ring: (a) F12 origin_spanning_area - creation raises although the
-   areas form two components; (b) origin_spanning_long_arc - an area that shares no base with any
-   other area ends up in their region *)
+(* create_regions merges EVERY section that overlaps the first one (repaired finding origin_spanning_area; only the
+   first section of the sweep can span the origin): whenever the merge succeeds, no remaining section overlaps the
+   first section's location, for every list of sections and every wrap point.  (The unrepaired code compared the
+   first section with the last one only.) *)
+Theorem C06_first_section_absorbs_overlaps : forall w secs secs',
+  cfixup w secs = Ok secs' ->
+  match secs' with
+  | [] => True
+  | (floc, _) :: rest => Forall (fun sec : csec => overlap floc (fst sec) = false) rest
+  end.
+Proof. exact cfixup_post. Qed.
+Print Assumptions C06_first_section_absorbs_overlaps.
+
+(* the loop of that merge ends by itself: a pass that merged removed a section, so the bound on the number of passes
+   used by the model is never reached (any larger bound gives the same result) *)
+Theorem C06_merge_loop_terminates : forall w secs extra, (1 < length secs)%nat ->
+  cfixup w secs = cmerge_loop (S (length secs) + extra) w secs.
+Proof. exact cfixup_fuel. Qed.
+Print Assumptions C06_merge_loop_terminates.
+
+(* the witness of the repaired finding: ring of 100, sub-regions 29..42, 90..99, 60..24 (origin-spanning), 59..77:
+   two regions, {60..24, 90..99, 59..77} with location join{[59:100], [0:24]} and {29..42} *)
+Example C06_components_ring_f12_example :
+  let sub i l := mkCA i 0 l in
+  let a0 := sub 0 [mkPart 29 42 1] in let a1 := sub 1 [mkPart 90 99 1] in
+  let a2 := sub 2 [mkPart 60 100 1; mkPart 0 24 1] in let a3 := sub 3 [mkPart 59 77 1] in
+  record_regions 100 true [a0; a1; a2; a3]
+  = Ok [mkCR [mkPart 59 100 1; mkPart 0 24 1] [] [a2; a1; a3]; mkCR [mkPart 29 42 1] [] [a0]].
+Proof. exact ring_f12_layout. Qed.
+
+(* the full statement still fails on a ring (origin_spanning_long_arc, connect_locations): (a) an area that shares no
+   base with any other area ends up in their region, whose location is the whole record; (b) the whole-record
+   location of such a region overlaps the region of another component and creation raises ValueError *)
 Theorem C06_components_ring_refuted :
-  (exists N supply, record_regions N true supply = Err E_Value) /\
   (exists N supply reg a b, record_regions N true supply = Ok [reg] /\ In a (rsubs reg) /\ In b (rsubs reg) /\
-     forall c, In c supply -> cid c <> cid b -> ~ shares_base (cloc b) (cloc c)).
+     forall c, In c supply -> cid c <> cid b -> ~ shares_base (cloc b) (cloc c)) /\
+  (exists N supply, record_regions N true supply = Err E_Value).
 Proof. exact ring_counterexamples. Qed.
 Print Assumptions C06_components_ring_refuted.
